@@ -982,7 +982,10 @@ func main() {
 	os.RemoveAll(dir)
 	c.phaseLarge(maxK, rng.Sub(4))
 
-	r.Extra("exhaustive", map[string]interface{}{
+	// exhaustive=true refers to the finite space described under exhaustive_scope (all tree shapes up to the bound);
+	// the sampled part above the bound and the leaf values are not part of that claim
+	r.Extra("exhaustive", true)
+	r.Extra("exhaustive_scope", map[string]interface{}{
 		"bound_N":           N,
 		"tree_sizes":        fmt.Sprintf("every size 0..%d reached by incremental AppendHash", N),
 		"inclusion_pairs":   fmt.Sprintf("all (m,n) with 0<=m<n<=%d: %d pairs, served by the tree of size n and by the tree of size N", N, N*(N+1)/2),
